@@ -163,7 +163,14 @@ class FractionScalar(AbstractValueWithQuantityObject):
             ) - convert_to_quantity.ConvertScalarValue(0.0, to_unit)
 
             converted_fraction = copy.copy(fraction_value.GetFraction())
+            denominator = converted_fraction.denominator
             converted_fraction.numerator = converted_numerator
+            if abs(float(converted_fraction) * denominator - converted_numerator) > 1e-9 * abs(
+                converted_numerator
+            ):
+                # The fraction cannot hold such a numerator (it keeps a limited number of decimals,
+                # so, a very small numerator would vanish): the amount is kept in the number.
+                return FractionValue(number=converted_number + converted_numerator / denominator)
             result.SetFraction(converted_fraction)
         return result
 
